@@ -3,4 +3,27 @@ EXTENDS Relational, Json
 MCAVals == {N, 1, 2}
 MCBVals == {N, 0, 1, 5}
 Emit == PrintT(<<"T", ToJson([hist |-> hist'])>>)
+
+(***************************************************************************)
+(* Workload generation for the crash checks (C01, C02, C40): the same      *)
+(* actions, i.e. every behaviour of WSpec is a behaviour of Spec, but with *)
+(* small row / predicate domains and with the transaction-control and      *)
+(* durability steps repeated (\E w \in 1..k) so that TLC's -simulate, which *)
+(* picks uniformly among successor states, produces walks in which BEGIN,  *)
+(* COMMIT, ROLLBACK, checkpoints and reopen are as frequent as DML.        *)
+(***************************************************************************)
+WRows == {Row(i, a, 0) : i \in Ids, a \in {N, 1}} \cup {Row(1, 2, 1), Row(2, N, 5), Row(3, 2, 1)}
+WSecond == {Row(3, N, 0), Row(1, N, 1)}
+WPreds == {[k |-> "all", c |-> "id", v |-> 0], [k |-> "eq", c |-> "id", v |-> 1], [k |-> "eq", c |-> "id", v |-> 2],
+           [k |-> "eq", c |-> "b", v |-> 0], [k |-> "ge", c |-> "id", v |-> 2], [k |-> "isnull", c |-> "a", v |-> 0]}
+WInsert1 == \E r \in WRows : Stmt([k |-> "insert", rows |-> <<r>>], DoInsert(rows, <<r>>))
+WInsert2 == \E r1 \in WRows, r2 \in WSecond : DoInsert(rows, <<r1, r2>>).ok /\ Stmt([k |-> "insert", rows |-> <<r1, r2>>], DoInsert(rows, <<r1, r2>>))
+WUpdate == \E p \in WPreds : \/ \E x \in {N, 2} : Stmt([k |-> "update", c |-> "a", v |-> x, p |-> p], DoUpdate(rows, "a", x, p))
+                              \/ \E y \in {0, 1, 5} : Stmt([k |-> "update", c |-> "b", v |-> y, p |-> p], DoUpdate(rows, "b", y, p))
+WDelete == \E p \in WPreds : Stmt([k |-> "delete", p |-> p], DoDelete(rows, p))
+WNext == \/ WInsert1 \/ WInsert1 \/ WInsert2 \/ WUpdate \/ UpdateId \/ WDelete
+         \/ \E w \in 1..2 : Truncate
+         \/ \E w \in 1..14 : Begin \/ Commit \/ Rollback \/ Savepoint \/ RollbackTo \/ Release
+         \/ \E w \in 1..8 : Reopen \/ Checkpoint
+WSpec == Init /\ [][WNext]_vars
 =============================================================================
